@@ -1011,7 +1011,7 @@ def style_section(run):
         'inherit/initial/pending, or has a computing function')
     from weasyprint.css.computed_values import COMPUTER_FUNCTIONS
     element = ET.Element('p', ELEMENT_ATTRS)
-    for _ in range(run.n(700, 12000)):
+    for _ in range(run.n(600, 12000)):
         depth = run.rng.randint(1, 4)
         chain = []      # root first: (cascaded, pseudo)
         for level in range(depth):
@@ -1226,9 +1226,6 @@ class C06(PropCheck):
     def judge(self, d):
         return cascade_docs.judge(d, reference_winner, reference_page_match, RANK)
 
-    def classify(self, d):
-        return c06_real.classify_spec(d)
-
     def search(self, run, failures):
         return cascade_docs.search(run, failures, reference_winner)
 
@@ -1237,7 +1234,6 @@ class C06(PropCheck):
         # border-image-width-not-computed) are the corpus-first `regressions` section now
         return {
             'inherit-skips-computed-value': cascade_docs.replay_inherit_skips_computing,
-            'image-orientation-not-inherited': c06_real.replay_image_orientation_not_inherited,
         }
 
     def replay(self, data):
